@@ -871,33 +871,40 @@ def lit_load(ctx):
             '  __CPROVER_assume(0);\n  return primitive_ctor_none();\n}\n')
     inst1 = text.replace('@LOAD@', 'primitive_load').replace('@LOAD_REC@', 'primitive_load_exponent')
     inst2 = text.replace('@LOAD@', 'primitive_load_exponent').replace('@LOAD_REC@', 'primitive_load_exponent2')
-    out += [proto + stub, inst2, inst1]
+    # integer-literal groups: an integer literal has no exponent, so the exponent instance itself is the failing stub
+    stub1 = stub.replace('primitive_load_exponent2', 'primitive_load_exponent').replace(
+        'the exponent of a well-formed literal contains no further exponent (recursion depth 2 is not reached)',
+        'no exponent is parsed for an integer or boolean literal (the recursive call is not reached)')
+    out += ['#ifdef C14_LIT_NO_EXPONENT\n' + stub1 + '#else\n' + proto + stub, inst2, '#endif', inst1]
     exs.append(ex)
     return '\n\n'.join(t.strip() for t in out), exs
 
 
-# shapes: (group suffix, harness set-up of the leading characters, filter on the spec result, largest literal length
-#          quick / thorough, description of the bound)
+# shapes of literal text, one CBMC run each
 def lit_shapes(tier):
     q = tier == 'quick'
-    def shape(name, setup, filt, nmax, what):
-        return dict(name=name, setup=setup, filt=filt, nmax=nmax, what=what)
+    def shape(name, setup, filt, nmax, what, integer=True, tail=False):
+        return dict(name=name, setup=setup, filt=filt, nmax=nmax, what=what, integer=integer, tail=tail)
     dd, hd, od, bd = (11, 9, 12, 33) if q else (20, 16, 22, 64)
+    na, nf = (8, 10) if q else (11, 14)
+    INT = 'c14_spec.kind == C14_LIT_INT && c14_spec.base == %d'
     return [
-        shape('any-text', '', '1', 8 if q else 11,
-              'every text of at most %d characters over all 256 byte values' % (8 if q else 11)),
-        shape('decimal', '', 'c14_spec.kind == C14_LIT_INT && c14_spec.base == 10', dd + 3,
+        shape('any-text', '', '1', na, 'every text of at most %d characters over all 256 byte values that is a literal' % na,
+              integer=False, tail=True),
+        shape('decimal', '', INT % 10, dd + 3,
               'every decimal integer literal of at most %d digits with every integer-suffix' % dd),
-        shape('hexadecimal', "c14_text[0] = '0'; c14_text[1] = nondet_bool() ? 'x' : 'X';",
-              'c14_spec.kind == C14_LIT_INT && c14_spec.base == 16', 2 + hd + 3,
-              'every hexadecimal integer literal of at most %d digits with every integer-suffix' % hd),
-        shape('octal', "c14_text[0] = '0';", 'c14_spec.kind == C14_LIT_INT && c14_spec.base == 8', 1 + od + 3,
+        shape('hexadecimal-x', "c14_text[0] = '0'; c14_text[1] = 'x';", INT % 16, 2 + hd + 3,
+              'every hexadecimal integer literal 0x... of at most %d digits with every integer-suffix' % hd),
+        shape('hexadecimal-X', "c14_text[0] = '0'; c14_text[1] = 'X';", INT % 16, 2 + hd + 3,
+              'every hexadecimal integer literal 0X... of at most %d digits with every integer-suffix' % hd),
+        shape('octal', "c14_text[0] = '0';", INT % 8, 1 + od + 3,
               'every octal integer literal of at most %d digits after the leading 0 with every integer-suffix' % od),
-        shape('binary', "c14_text[0] = '0'; c14_text[1] = nondet_bool() ? 'b' : 'B';",
-              'c14_spec.kind == C14_LIT_INT && c14_spec.base == 2', 2 + bd + 3,
-              'every binary integer literal of at most %d digits with every integer-suffix' % bd),
-        shape('floating', '', 'c14_spec.kind == C14_LIT_FLOAT', 10 if q else 14,
-              'every decimal floating literal (double, or float by f/F suffix) of at most %d characters' % (10 if q else 14)),
+        shape('binary-b', "c14_text[0] = '0'; c14_text[1] = 'b';", INT % 2, 2 + bd + 3,
+              'every binary integer literal 0b... of at most %d digits with every integer-suffix' % bd),
+        shape('binary-B', "c14_text[0] = '0'; c14_text[1] = 'B';", INT % 2, 2 + bd + 3,
+              'every binary integer literal 0B... of at most %d digits with every integer-suffix' % bd),
+        shape('floating', '', 'c14_spec.kind == C14_LIT_FLOAT', nf,
+              'every decimal floating literal (double, or float by f/F suffix) of at most %d characters' % nf, integer=False),
     ]
 
 
@@ -918,21 +925,31 @@ def literal_groups(ctx, unit):
     groups = []
     for sh in lit_shapes(ctx.tier):
         n = sh['nmax']
-        groups.append(Group(
-            name='literal/' + sh['name'], sources={'literal.c': body}, entry='h_literal', lang='c',
-            defines=['C14_LIT_MAX=%d' % n, 'C14_SHAPE_SETUP=%s' % sh['setup'], 'C14_SHAPE_FILTER=%s' % sh['filt']],
-            unwind=n + 6, checks=ARITH_CHECKS + PTR_CHECKS, min_obligations=8,
+        defines = ['C14_LIT_MAX=%d' % n, 'C14_SHAPE_SETUP=%s' % sh['setup'], 'C14_SHAPE_FILTER=%s' % sh['filt']]
+        if sh['integer']:
+            defines.append('C14_LIT_NO_EXPONENT')
+        if sh['tail']:
+            defines.append('C14_LIT_TAIL')
+        g = Group(
+            name='literal/' + sh['name'], sources={'literal.c': body}, entry='h_literal', lang='c', defines=defines,
+            unwind=n + 6, checks=ARITH_CHECKS + (PTR_CHECKS if sh['tail'] else []), min_obligations=8,
             timeout=int(os.environ.get('C14_TIMEOUT', '900')),
             functions=e3 + e2 + e1 + unit.common_ex, canary='CANARY', canary_label='canary',
-            strength='bounded', bound=sh['what'] + ', followed by any character that ends the token, then arbitrary text',
+            strength='bounded',
+            bound=sh['what'] + ', followed by any character that ends the token' +
+                  (' and then by arbitrary text' if sh['tail'] else ' and the end of the buffer'),
             param='literal length <= %d' % n,
             assumptions=['parseFloat/parseDouble (atof, sscanf %lf) return strtod of the text they are given: the double nearest to '
                          'its longest prefix that is a decimal floating constant (assumed, libc); for an f-suffixed literal the '
                          'value obligation is therefore "the float nearest to that double", not "the float nearest to the text"',
                          'std::string(first, count) [+ "suffix"] . c_str() is modelled by a NUL-terminated copy (contracts/C14/literal_harness.h)',
                          'strlen/strncmp: CBMC library models'],
-            note='loops unwound to the buffer length (unwinding assertions on); recursion of load unrolled textually (literal, exponent)',
-            replay=None if os.environ.get('C14_NO_REPLAY') else replay_C14.replay_literal))
+            note='loops unwound to the buffer length (unwinding assertions on); recursion of load unrolled textually '
+                 '(literal, exponent; integer shapes: the exponent instance is a stub that fails when reached); pointer/bounds '
+                 'checks only in literal/any-text (cursor safety of load is C12)',
+            replay=None if os.environ.get('C14_NO_REPLAY') else replay_C14.replay_literal)
+        g.extra_cbmc = ['--sat-solver', 'cadical']
+        groups.append(g)
     return groups
 
 
